@@ -361,10 +361,15 @@ def r4_who_may_write(ctx):
             continue
         n += 1
         ret = sig.split('->', 1)[1]
+        # a function that is private to the board module (or one of its sub-modules) is part of the owner's implementation, not a leak
+        vis = f.raw.get('vis') or ''
+        import re as _re
+        m_ = _re.search(r'Restricted\(DefId\([^~]*~ \w+\[[0-9a-f]+\](.*)\)\)', vis)
+        inside_owner = vis in ('', None) and f.name.startswith('chess::board::') or (m_ is not None and m_.group(1).startswith('::board'))
         for ty in (PS, MI, PI):
-            if 'mut ' + ty in ret:
+            if 'mut ' + ty in ret and not inside_owner:
                 bad.append((f.name, ret.strip()))
-    ctx.ob(rule, 'function signatures', 'no function returns &mut PieceSet/MoveInfo/PositionInfo', not bad, found=bad, expected=[],
+    ctx.ob(rule, 'function signatures', 'no function visible outside the board module returns &mut PieceSet/MoveInfo/PositionInfo', not bad, found=bad, expected=[],
            why='a leaked &mut would let placement or stacks change without the key')
     ctx.floor(rule, 'signatures scanned', n, 100)
     # fields are private and the three types live in private modules
